@@ -1,5 +1,8 @@
 use cfdp_verif::{checks::Tier, cli};
 
+#[global_allocator]
+static ALLOC: cfdp_verif::alloc_track::Tracking = cfdp_verif::alloc_track::Tracking;
+
 fn usage() -> ! {
     eprintln!("usage: verif run <Cxx> quick|thorough | verif replay <Cxx> <file> [--trace] | verif selftest determinism [n]");
     std::process::exit(2)
@@ -28,6 +31,16 @@ fn main() {
             let n: usize = args.get(3).and_then(|s| s.parse().ok()).unwrap_or(2000);
             let w: usize = args.get(4).and_then(|s| s.parse().ok()).unwrap_or(1);
             cli::cmd_selftest_digests(n, w)
+        }
+        Some("corpus") => {
+            let root = camino::Utf8PathBuf::from(format!("/dev/shm/cfdp-verif/{}/corpus", std::process::id()));
+            for it in cfdp_verif::wirecorpus::build(&root, None) {
+                use cfdp_verif::cfdp_core_reexport::*;
+                let r = PDU::decode(&mut it.bytes.as_slice());
+                println!("{:50} {:5} {}", it.label, it.bytes.len(), match r { Ok(_) => "ok".to_string(), Err(e) => format!("ERR {}", e) });
+            }
+            let _ = std::fs::remove_dir_all(format!("/dev/shm/cfdp-verif/{}", std::process::id()));
+            0
         }
         _ => usage(),
     };
